@@ -256,6 +256,7 @@ class Reg:
         self.payload_raw = {}
         self.vcache = {}
         self.exotic = False    # something the abstraction cannot represent faithfully was seen
+        self.exotic_certs = set()
 
     @staticmethod
     def _id(table, raw, v):
@@ -287,6 +288,8 @@ class Reg:
     def cert(self, d: dict) -> int:
         enc = enc_cert(d)
         if enc in self.cert_ix:
+            if self.cert_ix[enc] in self.exotic_certs:
+                self.exotic = True
             return self.cert_ix[enc]
         ix = len(self.certs) + 1
         self.cert_ix[enc] = ix
@@ -307,8 +310,10 @@ class Reg:
         except Exception:  # noqa: BLE001
             start, end = 1, 0
             self.exotic = True
+            self.exotic_certs.add(ix)
         if "signature" not in d:
             self.exotic = True
+            self.exotic_certs.add(ix)
         ctype = d.get("type")
         type_ok = d.get("version") == 3 and (
             (ctype == "explicit" and vki is not None and vki[0] == "verificationKey") or
